@@ -74,12 +74,18 @@ class Gen:
         self.closed = []  # (type, text) of closed sub-streams generated so far
         self.reused = 0
 
-    def fresh(self):
+    def fresh(self, role="stage"):
         """Next binder name.  Default: pairwise distinct.  `reuse` > 0: with that probability
         draw from a tiny pool WITH replacement, so binders repeat - in disjoint scopes and as
         inner re-use of an outer name that is still live (Python scoping is what the generated
         text means: inside the inner lambda the name is the inner parameter)."""
         self.k += 1
+        if role == "helper" and self.rng.random() < 0.7:
+            # parameters of helper (called) lambdas are mostly named apart from the stage
+            # binders, which people call x / e / j again and again
+            if self.names:
+                return self.names.pop()
+            return f"hh{self.k}"
         if self.reuse and self.rng.random() < self.reuse:
             return self.rng.choice(self.pool)
         if self.names and self.rng.random() < 0.7:
@@ -149,8 +155,8 @@ class Gen:
                 return res
         return None
 
-    def lam(self, argT, resT, env, d):
-        n = self.fresh()
+    def lam(self, argT, resT, env, d, role="stage"):
+        n = self.fresh(role)
         e2 = dict(env)
         e2[n] = argT
         b = self.expr(resT, e2, d)
@@ -224,7 +230,7 @@ class Gen:
             aT = self.anyT(True)
             a = E(aT)
             # helpers are generated closed (their only free name is their parameter)
-            l = self.lam(aT, T, {"ds": env["ds"]} if r.random() < 0.6 else env, d - 1)
+            l = self.lam(aT, T, {"ds": env["ds"]} if r.random() < 0.4 else env, d - 1, role="helper")
             if None in (a, l):
                 return None
             used = set(re.findall(r"[A-Za-z_][A-Za-z_0-9]*", l))
@@ -241,8 +247,9 @@ class Gen:
                 text = r.choice(known)[1]
                 self.helper_reuses += 1
             else:
-                js, c, a_, b_ = self.fresh(), self.fresh(), self.fresh(), self.fresh()
-                if len({js, c, a_, b_}) < 4:
+                js, c = self.fresh("helper"), self.fresh("helper")
+                a_, b_ = self.fresh(), self.fresh()
+                if js == c or {js, c} & {a_, b_}:
                     return None
                 if T == "int":
                     body = r.choice([
